@@ -149,6 +149,9 @@ def gen_cv_solve(rng, knobs):
                 while len(s["outcomes"]) <= pos:
                     s["outcomes"].append([0, 1.0])
                 s["outcomes"][pos] = [rng.choice(flags), gen_frac(rng)]
+    if flags and rng.random() < 0.12:
+        # a problem on which the integrator keeps failing, whatever the step size
+        s["tail"] = [rng.choice(flags), gen_frac(rng)]
     if "reinit_fail" in kinds and rng.random() < 0.5:
         s["reinit_fail"].append([rng.randint(1, 5), rng.choice([-20, -21, -22, -23])])
     if "setup_fail" in kinds and rng.random() < 0.3:
@@ -235,6 +238,12 @@ def ladder_stratum():
                 for i in range(0, len(solves), 4):
                     runs.append({"variant": variant, "nsys": 1, "solves": solves[i:i + 4],
                                  "origin": ["ladder", level, sub, i // 4]})
+        # the integrator never succeeds: one persistent flag per class, with and without progress
+        for fl in (-1, -2, -3, -4, -6, -5, -9):
+            for fr in (0.0, 0.5):
+                runs.append({"variant": variant, "nsys": 1, "origin": ["persistent", fl, fr], "solves": [
+                    {"mode": m, "reset": 0, "mxsteps": 500, "dt": 1e9, "y0c": [0.0, 0.25, 1.5, 7.0],
+                     "outcomes": [], "reinit_fail": [], "setup": [-1, 0], "tail": [fl, fr]} for m in (0, 1)]})
         # failing re-initialisation at each level, failing set-up call at each position
         for k in range(1, 6):
             outcomes = [[-1, 0.5]] * k
@@ -290,6 +299,8 @@ def encode_run(rid, run):
             tail = f"{len(s['outcomes'])} " + " ".join(f"{o[0]} {hexf(o[1])}" for o in s["outcomes"])
             tail += f" {len(s['reinit_fail'])} " + " ".join(f"{k} {f}" for k, f in s["reinit_fail"])
             tail += f" {s['setup'][0]} {s['setup'][1]}"
+            t = s.get("tail")
+            tail += f" 1 {t[0]} {hexf(t[1])}" if t else " 0 0 0x0p+0"
         lines.append(head + " " + tail)
     return lines
 
@@ -485,9 +496,9 @@ def minimise(bins, workdir, run, k, clause):
             s["outcomes"] = [o if (o[0] >= 0 or i in keep) else [0, 1.0] for i, o in enumerate(s["outcomes"])]
             while s["outcomes"] and s["outcomes"][-1][0] >= 0:
                 s["outcomes"].pop()
-        for field, empty in (("reinit_fail", []), ("setup", [-1, 0])):
+        for field, empty in (("reinit_fail", []), ("setup", [-1, 0]), ("tail", None)):
             c2 = dict(s, **{field: empty})
-            if s[field] != empty and fails(with_solve(c2), k):
+            if s.get(field, empty) != empty and fails(with_solve(c2), k):
                 s = c2
         # 3. simplify numbers
         for f2 in ("dt",):
